@@ -142,3 +142,112 @@ Theorem C19_prefix : forall dec encb pad ds p,
   read_text (cfgR dec encb true) (count_line pad ds p ++ [LF]) =
     result (repeat p (N.to_nat (digits_value ds))) (Z.of_N (digits_value ds)).
 Proof. exact (prefix_plain_inst C19_linebreaks_rejected). Qed.
+
+(* ---------------------------------------------------------------- translator tie (second tie to the source)
+
+   gen/Reader_gen.v is the line-by-line image of check_valid, TrainerFileInput.__init__ and
+   TrainerFileInput.read_password (lib_trainer/trainer_file_input.py), written on every run by
+   harness/translate_reader.py over the runtime theories/ReaderRt.v.  The theorems above are about
+   the hand-written model Reader.v; the ones below say that the translated source IS that model and
+   restate the main theorems over the translated reader itself.
+   source_reader cd prefix text = the translated generator run to exhaustion on the object the
+   translated __init__ builds for the file whose codecs lines are those of [text] (fuel = length + 1);
+   cd = the codec oracle of the training encoding; Some rout = ended normally with these totals. *)
+From Pcfg Require Import ReaderRt ReaderGenProofs ReaderGenFacts.
+From PcfgGen Require Import Reader_gen.
+
+Theorem C19_source_check_valid_is_model : forall p, py_check_valid p = accepted p.
+Proof. exact py_check_valid_is_model. Qed.
+
+(* for every text, codec, --prefixcount setting, file name and every fuel above the number of lines: the
+   translated generator ends normally (never out of fuel, no exception escapes) having yielded the model's
+   passwords, with the model's num_passwords and num_encoding_errors *)
+Theorem C19_source_read_password_is_model : forall name cd prefix text fuel,
+  (length (lines_keep LB text) < fuel)%nat ->
+  run_reader (py_read_password ENV fuel) (py_init name cd prefix (codecs_lines text)) =
+  Some (read_text (cfgR (cd_dec cd) (cd_encb cd) prefix) text).
+Proof. exact source_read_password_is_model. Qed.
+
+(* also for a file object whose readline raises UnicodeDecodeError at some calls (RErr): the line-level
+   relation Rd (ReaderGenProofs.v) counts one encoding error per such call and goes on *)
+Theorem C19_source_read_password_spec : forall cd prefix s fin fuel,
+  rinv cd prefix fuel s ->
+  Rd LBR (cfgR (cd_dec cd) (cd_encb cd) prefix) (o_file s) (proj s) fin ->
+  run_reader (py_read_password ENV fuel) s = Some fin.
+Proof. exact read_password_spec. Qed.
+
+Theorem C19_source_reader_is_model : forall cd prefix text,
+  source_reader cd prefix text = Some (read_text (cfgR (cd_dec cd) (cd_encb cd) prefix) text).
+Proof. exact source_reader_is_model. Qed.
+
+Theorem C19_source_hex : forall cd (enc : str -> list N) p,
+  cd_dec cd (enc p) = Some p -> forallb is_byte (enc p) = true ->
+  forallb (cd_encb cd) p = true -> py_check_valid p = true ->
+  source_reader cd false (hex_line enc p) = Some (result [p] 1).
+Proof. exact source_hex. Qed.
+
+Theorem C19_source_plain : forall cd p,
+  py_check_valid p = true -> is_hex_shaped p = false -> forallb (cd_encb cd) p = true ->
+  source_reader cd false (plain_line p) = Some (result [p] 1).
+Proof. exact (source_plain C19_linebreaks_rejected). Qed.
+
+Theorem C19_source_prefix : forall cd pad ds p,
+  blanks pad -> ds <> [] -> forallb ascii_digit ds = true ->
+  py_check_valid p = true -> is_hex_shaped p = false -> forallb (cd_encb cd) p = true ->
+  source_reader cd true (count_line pad ds p ++ [LF]) =
+    Some (result (repeat p (N.to_nat (digits_value ds))) (Z.of_N (digits_value ds))).
+Proof. exact (source_prefix C19_linebreaks_rejected). Qed.
+
+Theorem C19_source_prefix_hex : forall cd (enc : str -> list N) pad ds p,
+  blanks pad -> ds <> [] -> forallb ascii_digit ds = true ->
+  cd_dec cd (enc p) = Some p -> forallb is_byte (enc p) = true -> forallb (cd_encb cd) p = true ->
+  py_check_valid p = true ->
+  source_reader cd true (count_line pad ds (hex_body (enc p)) ++ [LF]) =
+    Some (result (repeat p (N.to_nat (digits_value ds))) (Z.of_N (digits_value ds))).
+Proof. exact source_prefix_hex. Qed.
+
+(* what the translated reader skips and what it counts *)
+Theorem C19_source_skips : forall cd,
+  (forall prefix text, let C' := cfgR (cd_dec cd) (cd_encb cd) prefix in
+     source_reader cd prefix text =
+     Some {| out := flat_map (fun l => line_out (read_line C' l)) (lines_keep LBR text);
+             npw := zsum (map (fun l => line_count (read_line C' l)) (lines_keep LBR text));
+             nerr := zsum (map (fun l => line_err (read_line C' l)) (lines_keep LBR text)) |}) /\
+  (forall prefix text o p, source_reader cd prefix text = Some o -> In p (out o) ->
+     py_check_valid p = true /\ forallb (cd_encb cd) p = true) /\
+  (py_check_valid [] = false -> source_reader cd false [LF] = Some (result [] 0) /\
+                                source_reader cd false [CR; LF] = Some (result [] 0)) /\
+  (forall body c, none_of is_crlf body = true -> is_hex_shaped body = false -> In c body -> py_check_valid [c] = false ->
+     source_reader cd false (body ++ [LF]) =
+     Some {| out := []; npw := 0; nerr := if forallb (cd_encb cd) body then 0 else 1 |}) /\
+  (forall body, none_of is_crlf body = true -> is_hex_shaped body = false -> forallb (cd_encb cd) body = false ->
+     source_reader cd false (body ++ [LF]) = Some {| out := []; npw := 0; nerr := 1 |}) /\
+  (forall body, none_of is_crlf body = true -> is_hex_shaped body = true ->
+     (fromhex (hex_payload body) = None \/ exists b, fromhex (hex_payload body) = Some b /\ cd_dec cd b = None) ->
+     source_reader cd false (body ++ [LF]) = Some {| out := []; npw := 0; nerr := 1 |}).
+Proof. exact source_skips. Qed.
+
+Theorem C19_source_same_sequence : forall cd prefix (ls : list (str * (str * Z))),
+  let C := cfgR (cd_dec cd) (cd_encb cd) prefix in
+  Forall (fun e => none_of LBR (fst e) = true /\ read_line C (fst e ++ [LF]) = Yield (fst (snd e)) (snd (snd e))) ls ->
+  source_reader cd prefix (flat_map (fun e => fst e ++ [LF]) ls) =
+    Some {| out := flat_map (fun e => repeat (fst (snd e)) (Z.to_nat (snd (snd e)))) ls;
+            npw := zsum (map (fun e => snd (snd e)) ls); nerr := 0 |}.
+Proof. exact source_same_sequence. Qed.
+
+(* the translated text runs: a count-prefixed $HEX line, a blank line, a line with a TAB, a line with a
+   vertical tab (re-joined from two codecs pieces, then refused) *)
+Theorem C19_source_example :
+  source_reader codec_id true
+    (count_line [32; 32]%N [48; 51]%N (hex_body [32; 112; 32]%N) ++ [LF] ++ [LF] ++ [49; 32; 97; 9; 98; LF]%N
+       ++ [50; 32; 120; 11; 121; CR; LF]%N)
+  = Some {| out := [[32; 112; 32]%N; [32; 112; 32]%N; [32; 112; 32]%N]; npw := 3; nerr := 0 |}.
+Proof. exact source_reader_example. Qed.
+
+Print Assumptions C19_source_check_valid_is_model.
+Print Assumptions C19_source_read_password_is_model.
+Print Assumptions C19_source_read_password_spec.
+Print Assumptions C19_source_hex.
+Print Assumptions C19_source_prefix.
+Print Assumptions C19_source_skips.
+Print Assumptions C19_source_same_sequence.
